@@ -765,3 +765,55 @@ FUNCTIONS += [
                     '(((set_reporter1 rf rep0).1, ok0), ((set_reporter1 rf rep0).2, orf))')],
     ),
 ]
+
+# ----------------------------------------------------------------------------------------------
+# registering a destruction requirement with its object (C13): the chain `object -> newest requirement -> older -> …`
+
+FUNCTIONS += [
+    dict(
+        name='chain_lifetime_monitor', cxx='trompeloeil::chain_lifetime_monitor', file=LIFE, module='ChainLifetimeMonitor',
+        header=r'chain_lifetime_monitor\(lifetime_monitor\*\s*monitor,\s*lifetime_monitor\*\s*older\)\s*noexcept',
+        nth=1,      # 0 is the forward declaration (no body)
+        lean_sig='{μ : Type} [DecidableEq μ] (monitor : μ) (older : Option μ) (older_of0 : μ → Option μ) : μ → Option μ',
+        prologue=['let mut older_of := older_of0'], epilogue='return older_of',
+        vars={'monitor': 'monitor', 'older': 'older'},
+        stmt_rules=[(r'^monitor->older_monitor = older$', 'older_of := fun x => if x = monitor then older else older_of x')],
+    ),
+    dict(
+        name='expect_death', cxx='deathwatched<T>::trompeloeil_expect_death', file=LIFE, module='ExpectDeath',
+        imports=['ChainLifetimeMonitor'],
+        header=r'trompeloeil_expect_death\(\s*trompeloeil::lifetime_monitor\*\s*monitor\)\s*const\s*noexcept',
+        lean_sig='{μ : Type} [DecidableEq μ] (monitor : μ) (head0 : Option μ) (older_of0 : μ → Option μ) : Option μ × (μ → Option μ)',
+        prologue=['let mut head := head0', 'let mut older_of := older_of0'], epilogue='return (head, older_of)',
+        vars={'monitor': 'monitor'},
+        decl_ignore=LOCK_DECL, stmt_ignore=IGNORE_HOOK,
+        stmt_rules=[(r'^chain_lifetime_monitor\(monitor, trompeloeil_lifetime_monitor\.leak\(\)\)$',
+                     'older_of := chain_lifetime_monitor monitor head older_of'),
+                    (r'^trompeloeil_lifetime_monitor = monitor$', 'head := some monitor')],
+        ret_rules=[(r'^trompeloeil_lifetime_monitor\.leak\(\)$', '(head, older_of)')],
+    ),
+    dict(
+        name='null_on_move_assign_ptr', cxx='null_on_move<T>::operator=(T*)', file=MOCK, module='NullOnMoveAssignPtr',
+        header=r'operator=\(\s*T\*\s*t\)\s*noexcept',
+        lean_sig='{μ : Type} (t : Option μ) (p0 : Option μ) : Option μ',
+        prologue=['let mut p := p0'], epilogue='return p',
+        vars={'t': 't', 'p': 'p'},
+        ret_rules=[(r'^\*this$', 'p')],
+    ),
+    dict(
+        name='null_on_move_assign_copy', cxx='null_on_move<T>::operator=(const null_on_move&)', file=MOCK, module='NullOnMoveAssignCopy',
+        header=r'operator=\(\s*const null_on_move&\)\s*noexcept',
+        lean_sig='{μ : Type} (p0 : Option μ) : Option μ',
+        prologue=['let mut p := p0'], epilogue='return p',
+        vars={'p': 'p'},
+        ret_rules=[(r'^\*this$', 'p')],
+    ),
+    dict(
+        name='null_on_move_assign_move', cxx='null_on_move<T>::operator=(null_on_move&&)', file=MOCK, module='NullOnMoveAssignMove',
+        header=r'operator=\(\s*null_on_move&&\)\s*noexcept',
+        lean_sig='{μ : Type} (p0 : Option μ) : Option μ',
+        prologue=['let mut p := p0'], epilogue='return p',
+        vars={'p': 'p'},
+        ret_rules=[(r'^\*this$', 'p')],
+    ),
+]
